@@ -1,0 +1,38 @@
+//go:build verif
+
+package olric
+
+import (
+	"github.com/olric-data/olric/internal/cluster/balancer"
+	"github.com/olric-data/olric/internal/cluster/partitions"
+	"github.com/olric-data/olric/internal/cluster/routingtable"
+	"github.com/olric-data/olric/internal/dmap"
+	"github.com/olric-data/olric/internal/pubsub"
+	"github.com/olric-data/olric/internal/server"
+)
+
+// VerifAccess exposes the internals of a member to the verification harness.
+type VerifAccess struct {
+	RoutingTable *routingtable.RoutingTable
+	Primary      *partitions.Partitions
+	Backup       *partitions.Partitions
+	DMap         *dmap.Service
+	PubSub       *pubsub.Service
+	Balancer     *balancer.Balancer
+	Server       *server.Server
+	Client       *server.Client
+}
+
+// Verif returns the internals of this member. Only available with the "verif" build tag.
+func (db *Olric) Verif() *VerifAccess {
+	return &VerifAccess{
+		RoutingTable: db.rt,
+		Primary:      db.primary,
+		Backup:       db.backup,
+		DMap:         db.dmap,
+		PubSub:       db.pubsub,
+		Balancer:     db.balancer,
+		Server:       db.server,
+		Client:       db.client,
+	}
+}
